@@ -55,6 +55,8 @@ type tOpt struct {
 	StartQid  uint16
 	SeedQueue int // pre-occupied wire IDs following StartQid (forces the skip loop)
 	WriteFailNth int // >0: the n-th client write over all connections fails
+	StartAt   []time.Duration // per caller: virtual delay before its first call
+	FreezeUntil time.Duration // the execution follows the default schedule until this virtual instant (prologue), exploration starts there
 	StageTwo  int  // the last StageTwo callers start only after all other callers have finished
 	RewindQid bool // tdc kinds: every call first rewinds the wire-ID counter to StartQid (a reachable state after 65536 allocations): IDs of queries still in flight must be skipped
 	Withdraw  bool // tdc kinds: a caller may reserve and withdraw instead of exchanging
@@ -497,6 +499,13 @@ func (s *tsys) run() {
 	if o.FreezeStage1 && o.StageTwo > 0 {
 		vs.Freeze()
 	}
+	if o.FreezeUntil > 0 {
+		vs.Freeze()
+		vs.GoNamed("unfreezer", func() {
+			vs.Sleep(o.FreezeUntil)
+			vs.Unfreeze()
+		})
+	}
 	if o.Seq == 0 {
 		o.Seq = 1
 		s.opt.Seq = 1
@@ -566,6 +575,9 @@ func (s *tsys) run() {
 				}
 			} else {
 				defer stage1.Done()
+			}
+			if ci < len(o.StartAt) && o.StartAt[ci] > 0 {
+				vs.Sleep(o.StartAt[ci])
 			}
 			for k := 0; k < o.Seq; k++ {
 				s.doCall(ci, s.calls[ci*o.Seq+k])
